@@ -588,3 +588,76 @@ Fixpoint fork_window_seen (evs : list lev) : bool :=
        && existsb (fun e => let '(_, i, x) := e in (i <? 0)%Z && negb x) l) || fork_window_seen r
   | _ :: r => fork_window_seen r
   end.
+
+(* ---- end-to-end: decode a real <tid>.dat and judge it against the program's own log ---- *)
+Record drec := { d_time : N; d_type : N; d_more : N; d_magic : N; d_depth : N; d_addr : N }.
+Definition dec_word (t w : N) : drec :=
+  {| d_time := t; d_type := (w mod 4)%N; d_more := ((w / 4) mod 2)%N; d_magic := ((w / 8) mod 8)%N;
+     d_depth := ((w / 64) mod 1024)%N; d_addr := (w / 65536)%N |}.
+(* records without payload only (the end-to-end programs are traced without argument specs) *)
+Fixpoint dec_words (ws : list N) : option (list drec) :=
+  match ws with
+  | [] => Some []
+  | t :: w :: r =>
+      let d := dec_word t w in
+      if ((d_magic d =? RECORD_MAGIC) && (d_more d =? 0))%N
+      then match dec_words r with Some l => Some (d :: l) | None => None end
+      else None
+  | _ => None
+  end.
+Fixpoint func_of (ftab : list (N * N)) (k : N) (a : N) : option N :=
+  match ftab with
+  | [] => None
+  | (s, n) :: r => if ((s <=? a) && (a <? s + n))%N then Some k else func_of r (k + 1)%N a
+  end.
+Fixpoint project (ftab : list (N * N)) (l : list drec) : list (N * N) :=
+  match l with
+  | [] => []
+  | d :: r =>
+      match (if ((d_type d =? UFTRACE_ENTRY) || (d_type d =? UFTRACE_EXIT))%N then func_of ftab 0%N (d_addr d) else None) with
+      | Some k => (d_type d, k) :: project ftab r
+      | None => project ftab r
+      end
+  end.
+Fixpoint ev_prefix (a b : list (N * N)) : bool :=
+  match a, b with
+  | [], _ => true
+  | (x, y) :: a', (u, v) :: b' => (x =? u)%N && (y =? v)%N && ev_prefix a' b'
+  | _, [] => false
+  end.
+Fixpoint times_ok (prev : N) (l : list drec) : bool :=
+  match l with [] => true | d :: r => (prev <=? d_time d)%N && times_ok (d_time d) r end.
+(* ENTRY depth = number of open calls, EXIT closes the innermost one (same address) *)
+Fixpoint nest_ok (stk : list N) (l : list drec) : bool :=
+  match l with
+  | [] => true
+  | d :: r =>
+      if (d_type d =? UFTRACE_ENTRY)%N then (d_depth d =? N.of_nat (length stk))%N && nest_ok (d_addr d :: stk) r
+      else if (d_type d =? UFTRACE_EXIT)%N then
+        match stk with
+        | a :: s' => (a =? d_addr d)%N && (d_depth d =? N.of_nat (length s'))%N && nest_ok s' r
+        | [] => false
+        end
+      else nest_ok stk r
+  end.
+Record ecase := {
+  e_ftab : list (N * N);          (* start, size of f0, f1, ... *)
+  e_log : list (N * N);           (* the thread's own log: (0 enter | 1 leave, k) *)
+  e_words : list N;               (* <tid>.dat as little-endian 64-bit words *)
+  e_tail : nat;                   (* file length mod 8 *)
+  e_crash : bool;                 (* the thread died in the SIGSEGV/SIGABRT handler path: open calls included *)
+  e_nest : bool }.                (* check nesting (off when the image was replaced by exec) *)
+Definition crash_log (l : list (N * N)) : list (N * N) :=
+  match rev l with
+  | (1%N, _) :: _ => removelast l       (* died while logging the leave: that call is still open *)
+  | _ => l
+  end.
+Definition ok_e2e (c : ecase) : bool :=
+  Nat.eqb (e_tail c) 0 &&
+  match dec_words (e_words c) with
+  | None => false
+  | Some l =>
+      let p := project (e_ftab c) l in
+      ev_prefix p (e_log c) && times_ok 0 l && (negb (e_nest c) || nest_ok [] l)
+      && (negb (e_crash c) || Nat.eqb (length p) (length (crash_log (e_log c))))
+  end.
